@@ -427,8 +427,6 @@ stack::uptr
 op_merge::next (scon &sc) const
 {
   state &st = sc.get <state> (m_ll);
-  if (st.m_done)
-    return nullptr;
 
   while (! st.m_done)
     {
@@ -438,6 +436,13 @@ op_merge::next (scon &sc) const
 	st.m_idx = 0;
     }
 
+  // The upstream has nothing more for now, and all the branches have
+  // consumed what they were given.  The upstream may be re-fed later
+  // (e.g. when this ALT sits in a sub-expression whose origin is given
+  // a new stack), so don't latch: forget that we are done, and start
+  // the next round with the first branch again.
+  st.m_done = false;
+  st.m_idx = 0;
   return nullptr;
 }
 
